@@ -8,7 +8,7 @@ pub fn c02_hist() -> PoolHist {
     PoolHist {
         name: "pool-history-lp-value",
         mon: Mon { c02: true, ..Mon::default() },
-        weights: Weights { create: 1, provide: 12, single: 7, withdraw: 10, swap: 5, route: 2, misc: 2, bad: 1 },
+        weights: Weights { roundtrip: 0, create: 1, provide: 12, single: 7, withdraw: 10, swap: 5, route: 2, misc: 2, bad: 1 },
         simple_routes: false,
         max_ops_quick: 40,
         max_ops_thorough: 80,
@@ -19,7 +19,7 @@ pub fn c03_hist() -> PoolHist {
     PoolHist {
         name: "pool-history-swap-value",
         mon: Mon { c03: true, ..Mon::default() },
-        weights: Weights { create: 1, provide: 5, single: 6, withdraw: 3, swap: 12, route: 8, misc: 2, bad: 0 },
+        weights: Weights { roundtrip: 8, create: 1, provide: 5, single: 6, withdraw: 3, swap: 10, route: 8, misc: 2, bad: 0 },
         simple_routes: false,
         max_ops_quick: 40,
         max_ops_thorough: 80,
@@ -30,7 +30,7 @@ pub fn c04_hist() -> PoolHist {
     PoolHist {
         name: "pool-history-swap-conservation",
         mon: Mon { c04: true, ..Mon::default() },
-        weights: Weights { create: 1, provide: 5, single: 2, withdraw: 3, swap: 12, route: 10, misc: 3, bad: 0 },
+        weights: Weights { roundtrip: 0, create: 1, provide: 5, single: 2, withdraw: 3, swap: 12, route: 10, misc: 3, bad: 0 },
         simple_routes: false,
         max_ops_quick: 40,
         max_ops_thorough: 80,
@@ -41,7 +41,7 @@ pub fn c12_hist() -> PoolHist {
     PoolHist {
         name: "pool-history-quotes",
         mon: Mon { c12: true, ..Mon::default() },
-        weights: Weights { create: 1, provide: 5, single: 2, withdraw: 3, swap: 12, route: 10, misc: 3, bad: 0 },
+        weights: Weights { roundtrip: 0, create: 1, provide: 5, single: 2, withdraw: 3, swap: 12, route: 10, misc: 3, bad: 0 },
         simple_routes: true,
         max_ops_quick: 40,
         max_ops_thorough: 80,
@@ -52,7 +52,7 @@ pub fn c16_hist() -> PoolHist {
     PoolHist {
         name: "pool-history-immutability",
         mon: Mon { c16: true, ..Mon::default() },
-        weights: Weights { create: 4, provide: 6, single: 3, withdraw: 4, swap: 6, route: 3, misc: 6, bad: 3 },
+        weights: Weights { roundtrip: 0, create: 4, provide: 6, single: 3, withdraw: 4, swap: 6, route: 3, misc: 6, bad: 3 },
         simple_routes: false,
         max_ops_quick: 40,
         max_ops_thorough: 80,
@@ -63,7 +63,7 @@ pub fn c20_hist() -> PoolHist {
     PoolHist {
         name: "pool-history-rejections",
         mon: Mon { c20: true, ..Mon::default() },
-        weights: Weights { create: 2, provide: 6, single: 6, withdraw: 5, swap: 8, route: 6, misc: 3, bad: 8 },
+        weights: Weights { roundtrip: 0, create: 2, provide: 6, single: 6, withdraw: 5, swap: 8, route: 6, misc: 3, bad: 8 },
         simple_routes: false,
         max_ops_quick: 40,
         max_ops_thorough: 80,
@@ -82,6 +82,118 @@ pub fn all_hist() -> PoolHist {
         max_ops_thorough: 80,
         generic_mark: true,
     }
+}
+
+const WORLD_ASSUMPTIONS: [&str; 2] = [
+    "contracts run natively inside cw-multi-test with mantra-common-testing's token-factory mock, as in the repository's own suites",
+    "a contract panic is a rejected transaction (cw-multi-test commits storage only on success)",
+];
+
+fn hist_cases(tier: Tier, quick: u64, thorough: u64) -> u64 {
+    match tier {
+        Tier::Quick => quick,
+        Tier::Thorough => thorough,
+    }
+}
+
+pub fn check_c02(tier: Tier, seed: u64) -> PropReport {
+    use crate::props::numeric::SsMint;
+    let mut rep = PropReport::new(
+        "C02",
+        tier,
+        seed,
+        "exploration",
+        "engine 1: generated pool histories weighted towards deposits (balanced, skewed, partial asset sets, single-asset, locked) and withdrawals (all / fractions / a few units / more than owned) on constant-product and 2-4 asset stableswap pools with mixed decimals; after every step: LP supply changes only by that pool's deposits/withdrawals; constant product: minted <= min_i floor(dep_i*S/R_i) and x1*y1*S0^2 >= x0*y0*S1^2 in big integers; stableswap: (S0+m)(D0-2) <= S0(D1+2) with D the exact root by bisection; withdrawal pays floor(R_i*a/S) or one unit less per asset, to the sender only, burns exactly a; a refused withdrawal worth >= 1 unit by an owner with withdrawals enabled is a violation; supply >= locked minimum. engine 2: compute_lp_mint_amount_for_stableswap_deposit called directly on generated (state, deposit vector, supply) with the same stableswap inequality. non-trivial = history with a deposit into a funded pool that mints > 0 or a withdrawal with a fractional share (engine 1), mint > 0 (engine 2); distinct by the generated case",
+    );
+    rep.assumptions = WORLD_ASSUMPTIONS.iter().map(|s| s.to_string()).collect();
+    let e = c02_hist();
+    let n = hist_cases(tier, 1500, 30_000);
+    let o = drive(&e, "C02", tier, n, seed);
+    rep.push(e.name, o);
+    let e2 = SsMint;
+    let n2 = hist_cases(tier, 200_000, 5_000_000);
+    let o = drive(&e2, "C02", tier, n2, seed);
+    rep.push(e2.name(), o);
+    rep.floor("c02: withdrawal with a fractional share", n / 4);
+    rep.floor("c02: ss deposit into funded pool", n / 10);
+    rep.floor("c02: ss partial-set deposit", n / 50);
+    rep.floor("c02: cp deposit into funded pool", n / 10);
+    rep.floor("c02: ss single-asset deposit", n / 20);
+    rep.floor("mint checked: partial asset set", n2 / 20);
+    rep
+}
+
+pub fn check_c03(tier: Tier, seed: u64) -> PropReport {
+    use crate::props::numeric::{CpSwap, SsSwapValue};
+    let mut rep = PropReport::new(
+        "C03",
+        tier,
+        seed,
+        "exploration",
+        "engine 1: generated pool histories weighted towards swaps, routes (may revisit pools), single-asset deposits and round-trip programs (a trader swaps an amount through 2-4 legs among the assets of one pool and back to the start denom, forwarding all proceeds); every executed swap - direct, each hop (reserves tracked hop by hop from the response and cross-checked with the Pools query), internal swap of a single-asset deposit - must not lower x*y (constant product, big integers) or the exact Curve invariant D at 9 extra digits (stableswap, bisection); a completed round trip must not leave the trader with more of the start denom, nor with anything else. engines 2/3: compute_swap called directly on generated constant-product states (reserves 1..10^30, offers 1 unit..10x reserve, fees 0..20%) and on the C19 stableswap states, same oracles. non-trivial = history containing an executed swap with non-zero output or a completed round trip; numeric case with non-zero output; distinct by the generated case",
+    );
+    rep.assumptions = WORLD_ASSUMPTIONS.iter().map(|s| s.to_string()).collect();
+    let e = c03_hist();
+    let n = hist_cases(tier, 1500, 30_000);
+    let o = drive(&e, "C03", tier, n, seed);
+    rep.push(e.name, o);
+    let n2 = hist_cases(tier, 200_000, 5_000_000);
+    let o = drive(&CpSwap, "C03", tier, n2, seed);
+    rep.push(CpSwap.name(), o);
+    let o = drive(&SsSwapValue, "C03", tier, n2, seed);
+    rep.push(SsSwapValue.name(), o);
+    rep.floor("c03: hop swaps", n / 2);
+    rep.floor("c03: single-internal swaps", n / 4);
+    rep.floor("round trips completed", n / 2);
+    rep.floor("round trips with >= 3 legs", n / 20);
+    rep.floor("c03: ss swaps", n);
+    rep.floor("c03: cp swaps", n);
+    rep
+}
+
+pub fn check_c04(tier: Tier, seed: u64) -> PropReport {
+    use crate::props::numeric::CpSwap;
+    let mut rep = PropReport::new(
+        "C04",
+        tier,
+        seed,
+        "exploration",
+        "generated pool histories weighted towards swaps and routes of 1-5 hops (revisiting pools, sharing denoms between hops, receivers other than the sender, fee collector re-pointed to a user account, fee sets with several extra fees up to the 20% cap); for every executed swap/route, from full balance snapshots, Pools{} and supplies before/after: offer reserve += offer exactly; ask reserve -= return + protocol fee + burn fee exactly; receiver += final return; fee collector += protocol fees; supply -= burn fees; sender -= offer; every other account, pool and LP supply unchanged (equality of the complete delta maps); each fee == floor(gross * share) in exact integers with gross = return + all fees; hop k's offer == hop k-1's return. plus direct calls of compute_swap on constant-product states for the fee floors. non-trivial = swap with >= 2 non-zero fees, or route with >= 2 hops; distinct by the generated history",
+    );
+    rep.assumptions = WORLD_ASSUMPTIONS.iter().map(|s| s.to_string()).collect();
+    let e = c04_hist();
+    let n = hist_cases(tier, 1500, 30_000);
+    let o = drive(&e, "C04", tier, n, seed);
+    rep.push(e.name, o);
+    let n2 = hist_cases(tier, 100_000, 3_000_000);
+    let o = drive(&CpSwap, "C04", tier, n2, seed ^ 0x44);
+    rep.push(CpSwap.name(), o);
+    rep.floor("c04: routes with >= 2 hops", n / 4);
+    rep.floor("c04: swaps with >= 2 non-zero fees", n / 2);
+    rep
+}
+
+pub fn check_c12(tier: Tier, seed: u64) -> PropReport {
+    use crate::props::numeric::CpReverse;
+    let mut rep = PropReport::new(
+        "C12",
+        tier,
+        seed,
+        "exploration",
+        "engine 1: generated pool histories; immediately before every swap the harness queries Simulation and before every route (simple: each pool at most once, pools may share denoms, 1-5 hops) SimulateSwapOperations; the executed message must then move balances, reserves and supply exactly as the quote says (return, protocol fee, burn fee from the bank; swap and extra fee amounts from the response), the route must deliver exactly the quoted final amount; a quote that is refused while the swap executes, or a swap failing for a reason other than a price protection / disabled switch / unaffordable offer after a non-zero quote, is a violation. engine 2: compute_offer_amount (ReverseSimulation on constant-product pools) on generated reserves 1..10^30, asks up to 99% of the reserve, fees 0..20%: offering quote+1 must return >= the requested amount. non-trivial = quoted swap executed after >= 6 earlier steps, or route with >= 2 hops (engine 1); reverse quote answered (engine 2)",
+    );
+    rep.assumptions = WORLD_ASSUMPTIONS.iter().map(|s| s.to_string()).collect();
+    let e = c12_hist();
+    let n = hist_cases(tier, 1500, 30_000);
+    let o = drive(&e, "C12", tier, n, seed);
+    rep.push(e.name, o);
+    let n2 = hist_cases(tier, 200_000, 10_000_000);
+    let o = drive(&CpReverse, "C12", tier, n2, seed);
+    rep.push(CpReverse.name(), o);
+    rep.floor("c12: direct swap quote == execution", n);
+    rep.floor("c12: routes with >= 2 hops", n / 5);
+    rep.floor("reverse quote checked", n2 / 2);
+    rep
 }
 
 pub fn check_dev(tier: Tier, seed: u64, which: &str) -> PropReport {
